@@ -332,8 +332,8 @@ def colliding_names_section(ctx):
         group = (i // (2 * len(PAIRS))) % 2 == 1
         glyphs = [{"name": "a", "unicodes": [0x61], "width": 500, "contours": [], "anchors": [(n1, Fr(100), Fr(500))]},
                   {"name": "b", "unicodes": [0x62], "width": 500, "contours": [], "anchors": [(n2, Fr(300), Fr(510))]},
-                  {"name": "m1", "unicodes": [0x301], "width": 0, "contours": [], "anchors": [("_" + n1, Fr(0), Fr(480))]},
-                  {"name": "m2", "unicodes": [0x302], "width": 0, "contours": [], "anchors": [("_" + n2, Fr(10), Fr(470))]}]
+                  {"name": "m1", "unicodes": [0x301], "width": 0, "contours": [], "anchors": [("_" + n1, Fr(0), Fr(480)), (n1, Fr(5), Fr(700))]},
+                  {"name": "m2", "unicodes": [0x302], "width": 0, "contours": [], "anchors": [("_" + n2, Fr(10), Fr(470)), (n2, Fr(15), Fr(690))]}]
         desc = {"glyphs": glyphs, "features": "languagesystem DFLT dflt;\n",
                 "lib": {"public.openTypeCategories": {"a": "base", "b": "base", "m1": "mark", "m2": "mark"}}}
         case = {"font": jsonable(desc), "lib": lib, "anchor_names": [n1, n2], "groupMarkClasses": group}
@@ -354,6 +354,14 @@ def colliding_names_section(ctx):
             if got != w:
                 ctx.spec_failure(dict(case, base=base, mark=mk), "%s on %s: attached by %r, the anchors %s" % (
                     mk, base, got, "coincide at %r" % (w,) if w else "share no name: no attachment"))
+        # ... and the marks stack on themselves by the same names (mark-to-mark: lookups named after the anchor, F46)
+        lk2 = lay.lookups_for("DFLT", {"mkmk"})
+        for (below, mk), w in {("m1", "m1"): (5, 220), ("m2", "m2"): (5, 220), ("m1", "m2"): None, ("m2", "m1"): None}.items():
+            got = lay.mark_attach(lk2, below, mk)
+            got = tuple(got[:2]) if got else None
+            if got != w:
+                ctx.spec_failure(dict(case, base=below, mark=mk), "%s on the mark %s: attached by %r, the anchors %s" % (
+                    mk, below, got, "coincide at %r" % (w,) if w else "share no name: no attachment"))
 
 
 def mark_class_section(ctx):
@@ -446,7 +454,66 @@ def mark_class_section(ctx):
             ctx.corr_mismatch(case, "Gallina process_all (Mark/MarkClasses.v) differs from the compiled feature file's mark classes / class references")
 
 
+def partial_todo_section(ctx):
+    """an Indic font (abvm / blwm) where only SOME of the four features are left to the writer: one of them is hand-written in the
+    feature file without a marker (and attaches its own pairs correctly), or is left out of the writer's `features` argument.
+    Every feature that IS the writer's to make still makes its pairs coincide -- one feature being hand-written takes nothing
+    away from the others"""
+    import ufo2ft
+    from fontTools.ttLib import TTFont
+    from ufo2ft.featureWriters import MarkFeatureWriter, GdefFeatureWriter
+    A = {"a": (0x61, 500, [("top", 250, 480), ("bottom", 250, -10)]), "acutecomb": (0x301, 0, [("_top", 100, 450), ("top", 100, 600)]),
+         "dotbelowcomb": (0x323, 0, [("_bottom", 100, -40)]),
+         "ka-deva": (0x915, 500, [("top", 320, 640), ("bottom", 300, -20)]), "anusvara-deva": (0x902, 0, [("_top", -60, 600), ("top", -60, 720)]),
+         "uMatra-deva": (0x941, 0, [("_bottom", -80, 0), ("bottom", -80, -150)])}
+    served = {("a", "acutecomb"): "mark", ("a", "dotbelowcomb"): "mark", ("acutecomb", "acutecomb"): "mkmk",
+              ("ka-deva", "anusvara-deva"): "abvm", ("anusvara-deva", "anusvara-deva"): "abvm",
+              ("ka-deva", "uMatra-deva"): "blwm", ("uMatra-deva", "uMatra-deva"): "blwm"}
+    HAND = {"abvm": "markClass anusvara-deva <anchor -60 600> @H_ABOVE;\nfeature abvm {\n  pos base ka-deva <anchor 320 640> mark @H_ABOVE;\n"
+                    "  pos mark anusvara-deva <anchor -60 720> mark @H_ABOVE;\n} abvm;\n",
+            "blwm": "markClass uMatra-deva <anchor -80 0> @H_BELOW;\nfeature blwm {\n  pos base ka-deva <anchor 300 -20> mark @H_BELOW;\n"
+                    "  pos mark uMatra-deva <anchor -80 -150> mark @H_BELOW;\n} blwm;\n",
+            "mark": "markClass acutecomb <anchor 100 450> @H_TOP;\nmarkClass dotbelowcomb <anchor 100 -40> @H_BOT;\nfeature mark {\n"
+                    "  pos base a <anchor 250 480> mark @H_TOP <anchor 250 -10> mark @H_BOT;\n} mark;\n",
+            "mkmk": "markClass acutecomb <anchor 100 450> @H_TOP2;\nfeature mkmk {\n  pos mark acutecomb <anchor 100 600> mark @H_TOP2;\n} mkmk;\n"}
+    variants = [("hand", h) for h in ("abvm", "blwm", "mark", "mkmk")] + [("left-out", h) for h in ("abvm", "blwm", "mark", "mkmk")] + [("hand", None)]
+    for i in range(ctx.budget(len(variants) * 2, len(variants) * 4)):
+        how, tag = variants[i % len(variants)]
+        lib = ["ufoLib2", "defcon"][(i // len(variants)) % 2]
+        group = (i // (2 * len(variants))) % 2 == 1
+        glyphs = [{"name": n, "unicodes": [u], "width": w, "contours": [], "anchors": [(an, Fr(x), Fr(y)) for an, x, y in anc]} for n, (u, w, anc) in A.items()]
+        fea = "languagesystem DFLT dflt;\nlanguagesystem dev2 dflt;\nlanguagesystem latn dflt;\n" + (HAND[tag] if how == "hand" and tag else "")
+        desc = {"glyphs": glyphs, "features": fea, "lib": {"public.openTypeCategories": {n: ("mark" if w == 0 else "base") for n, (u, w, anc) in A.items()}}}
+        wkw = {"groupMarkClasses": group}
+        if how == "left-out":
+            wkw["features"] = [t for t in ("mark", "mkmk", "abvm", "blwm") if t != tag]
+        case = {"font": jsonable(desc), "lib": lib, "how": how, "feature": tag, "writer_options": jsonable(wkw)}
+        ctx.count(); ctx.klass("partial to-do: %s %s" % (tag, how) if tag else "partial to-do: all four generated"); ctx.nontriv(("todo", i, ctx.scale))
+        try:
+            tt = ufo2ft.compileTTF(build_font(desc, lib), useProductionNames=False, featureWriters=[MarkFeatureWriter(**wkw), GdefFeatureWriter])
+            b = io.BytesIO(); tt.save(b); lay = Layout(TTFont(io.BytesIO(b.getvalue())))
+        except Exception as e:
+            ctx.spec_failure(case, "compile raised %s: %s\n%s" % (type(e).__name__, e, traceback.format_exc()[-1000:]))
+            continue
+        by = {n: {an: (x, y) for an, x, y in anc} for n, (u, w, anc) in A.items()}
+        for script in ("DFLT", "dev2", "latn"):
+            lk = lay.lookups_for(script, {"mark", "mkmk", "abvm", "blwm"})
+            for (base, mk), feat in served.items():
+                if how == "left-out" and feat == tag:
+                    continue                                  # nobody was asked to make it
+                key = [an[1:] for an in by[mk] if an.startswith("_")][0]
+                want = (by[base][key][0] - by[mk]["_" + key][0], by[base][key][1] - by[mk]["_" + key][1])
+                got = lay.mark_attach(lk, base, mk)
+                got = tuple(got[:2]) if got else None
+                if got != want:
+                    ctx.spec_failure(dict(case, script=script, base=base, mark=mk, served_by=feat),
+                                     "%s on %s under %s: attached by %r; the anchors %r coincide at %r (the pair is served by '%s', %s)" % (
+                                         mk, base, script, got, key, want, feat,
+                                         "hand-written here" if how == "hand" and feat == tag else "which the writer was to generate"))
+
+
 def explore(ctx):
+    partial_todo_section(ctx)
     mark_class_section(ctx)
     colliding_names_section(ctx)
     variable_section(ctx)
